@@ -142,6 +142,7 @@ type TypeCfg struct {
 	InlineOnlyStruct bool // inline only on direct struct fields (what Unfold supports)
 	NoIface          bool
 	TopStruct        bool // the top-level type is a struct
+	Normalising      bool // may use pool types whose user unfolder post-processes the value (no round trips)
 }
 
 var fieldNames = []string{"A", "B", "C", "Name", "ID", "URL", "X1", "Foo_Bar", "Value", "ÄB", "Zz"}
@@ -284,10 +285,15 @@ func (g *typeGen) typ(t *rapid.T, depth int) TypeDesc {
 		if g.cfg.Pool {
 			var names []string
 			for _, p := range Pool {
-				if (p.FoldOnly && !g.cfg.FoldOnly) || (p.Recursive && !g.cfg.Recursive) || p.Family {
+				if (p.FoldOnly && !g.cfg.FoldOnly) || (p.Recursive && !g.cfg.Recursive) || p.Family || (p.Normalises && !g.cfg.Normalising) {
 					continue
 				}
 				names = append(names, p.Name)
+				if p.FoldOnly || p.NeedsUnfoldOpts || strings.HasPrefix(p.Name, "Exp") {
+					// types with custom folders / unfolders: where the library's
+					// kind-based fast paths and its user hooks meet
+					names = append(names, p.Name, p.Name)
+				}
 			}
 			pt := TypeDesc{Kind: "pool", Pool: rapid.SampledFrom(names).Draw(t, "pool")}
 			// hand-written types (custom folders, user unfolders, expanders,
@@ -341,8 +347,22 @@ func (g *typeGen) structType(t *rapid.T, depth int) TypeDesc {
 		}
 		used[name] = true
 		f := FieldDesc{Name: name, Type: g.typ(t, depth+1)}
+		same := i > 0 && rapid.IntRange(0, 9).Draw(t, "sametype") == 0
+		if same {
+			// the SAME type as the previous field: a type used as ordinary member
+			// and as inlined member side by side
+			f.Type = cloneType(td.Fields[i-1].Type)
+		}
 		if g.cfg.Tags {
 			f.Tag = g.tag(t, &f.Type)
+			if same && !g.cfg.NoInline && inlineable(&f.Type, g.cfg.InlineOnlyStruct) && rapid.IntRange(0, 2).Draw(t, "samemix") > 0 {
+				prevInline := ParseTag(reflect.StructTag(td.Fields[i-1].Tag).Get("struct")).Inline
+				if prevInline {
+					f.Tag = ""
+				} else {
+					f.Tag = `struct:",inline"`
+				}
+			}
 		}
 		if g.cfg.Tags && rapid.IntRange(0, 9).Draw(t, "optptr") == 0 {
 			// optional scalars: pointer (chains) to numbers/bools/structs with
@@ -414,6 +434,23 @@ func (g *typeGen) nestedInline(t *rapid.T, depth, idx int) (TypeDesc, string) {
 		}
 	}
 	return mt, inl()
+}
+
+// cloneType deep-copies a type description (descriptions are edited in place
+// by uniqueMemberNames).
+func cloneType(td TypeDesc) TypeDesc {
+	out := td
+	if td.Elem != nil {
+		e := cloneType(*td.Elem)
+		out.Elem = &e
+	}
+	if td.Fields != nil {
+		out.Fields = make([]FieldDesc, len(td.Fields))
+		for i, f := range td.Fields {
+			out.Fields[i] = FieldDesc{Name: f.Name, Tag: f.Tag, Type: cloneType(f.Type)}
+		}
+	}
+	return out
 }
 
 func inlineable(td *TypeDesc, onlyStruct bool) bool {
